@@ -188,3 +188,60 @@ def validate_sqlgen(traces, tr, what):
     if acc + len(rej) != len(traces):
         raise common.MachineryError("%s: %d traces but %d accepted + %d rejected" % (what, len(traces), acc, len(rej)))
     return rej
+
+
+def start_merge(tag="merge"):
+    prefix = os.path.join(common.scratch(), "%s_mergetrace" % tag)
+    os.environ["DATA_ALGEBRA_VERIF_TRACE_MERGE"] = prefix
+    return prefix
+
+
+def run_merge(prop, vd, stats, tr, prefix, tier):
+    """validate the SQL extend-merge decisions recorded under `prefix` (spec/Trace_SqlMerge.tla)"""
+    os.environ.pop("DATA_ALGEBRA_VERIF_TRACE_MERGE", None)
+    seen, events = set(), []
+    for fn in sorted(glob.glob(prefix + ".*")):
+        with open(fn) as f:
+            for line in f:
+                try:
+                    ev = json.loads(line)
+                except ValueError:
+                    continue
+                ev.pop("seq", None)
+                key = json.dumps(ev, sort_keys=True)
+                if key not in seen:
+                    seen.add(key)
+                    events.append(ev)
+    limit = 6000 if tier == "quick" else 40000
+    if len(events) > limit:
+        events = random.Random(common.seed()).sample(events, limit)
+    out = {"sql_merge_decisions_validated": len(events), "sql_merges_taken": sum(1 for e in events if e["sqlmerge"])}
+    if not events:
+        return out
+    sc = common.spec_copy()
+    path = os.path.join(sc, "merge_events_%d.json" % len(tr.runs))
+    with open(path, "w") as f:
+        json.dump(events, f)
+    cfg = os.path.join(sc, "merge_events_%d.cfg" % len(tr.runs))
+    common.write_cfg(cfg, spec="TSpec", constants={})
+    res = common.run_tlc(os.path.join(sc, "Trace_SqlMerge.tla"), cfg, workers=16, timeout=900, cwd=sc, env={"TRACE_FILE": path})
+    common.tlc_or_die(res, "merge decisions")
+    tr.add("%d SQL extend-merge decisions (%d merges) judged by Trace_SqlMerge: DeclaredCoversText, MergeSoundHere" %
+           (len(events), out["sql_merges_taken"]), res)
+    judged = 0
+    for ln in res.lines:
+        m = re.match(r"^(ACC|DRIFT \S+|REJ \S+) (\d+)$", ln)
+        if not m:
+            continue
+        judged += 1
+        v, i = m.group(1), int(m.group(2)) - 1
+        if v == "ACC":
+            stats["merge:accepted"] += 1
+        elif v.startswith("DRIFT"):
+            stats["merge:model_drift_rule"] += 1
+        else:
+            stats["merge:rejected"] += 1
+            vd.violation({"kind": "sql-merge-decision", "law": v[4:], "event": events[i]}, tag="merge:" + v[4:])
+    if judged != len(events):
+        raise common.MachineryError("Trace_SqlMerge judged %d of %d events" % (judged, len(events)))
+    return out
